@@ -27,6 +27,7 @@ type scenario struct {
 	Late        string `json:"after_k"` // "silent" | "late+1ms" | "late3x"
 	Traffic     bool   `json:"concurrent_stream_traffic"`
 	BrokerPings int    `json:"broker_pings"`
+	PingBurst   int    `json:"broker_ping_burst_while_pongs_are_slow,omitempty"`
 }
 
 var durations = []int{50, 200, 1000, 1500, 10000, 30000}
@@ -39,6 +40,11 @@ func gen(c *vrun.Case) scenario {
 	s.Late = []string{"silent", "late+1ms", "late3x"}[r.Intn(3)]
 	s.Traffic = r.Intn(2) == 0
 	s.BrokerPings = []int{0, 3, 10}[r.Intn(3)]
+	if r.Intn(3) == 0 && s.IntervalMs >= 1000 && s.TimeoutMs >= 1000 {
+		// only where the ~150 ms the client needs to write the pongs cannot interfere with its own keepalive deadlines
+		// (the reader waits for the pong writer by design: with sub-second timeouts that head-of-line wait is itself a timeout)
+		s.PingBurst = 12 + r.Intn(20)
+	}
 	return s
 }
 
@@ -47,7 +53,7 @@ const slack = time.Millisecond
 func TestC15Keepalive(t *testing.T) {
 	e := vrun.LoadEnv()
 	meta := vrun.Meta{Property: "C15", Workload: "TestC15Keepalive", Total: e.Pick(200, 50000),
-		Rule: "virtual time (testing/synctest): (interval, timeout) drawn from {50ms,200ms,1s,1.5s,10s,30s}^2; the broker answers the first k in {0,1,2,5,20,all} pings in time (pong delay 0, timeout/2 or timeout-1ms) and then falls silent or answers late (timeout+1ms, 3*timeout); with or without concurrent upstream traffic; 0/3/10 broker-originated pings interleaved. Oracle on the virtual clock: ping cadence (next ping no later than one interval + 1ms after the previous one was sent), disconnect notification AND a new dial no later than timeout + 1 ms after the first ping that is not answered in time reached the broker; no disconnect and no redial over 40 intervals while every pong is in time; every broker ping answered by a pong with the same request id; announced interval/timeout = configured values truncated to whole seconds. non-trivial = at least 2 client pings observed; distinct = scenario tuple",
+		Rule: "virtual time (testing/synctest): (interval, timeout) drawn from {50ms,200ms,1s,1.5s,10s,30s}^2; the broker answers the first k in {0,1,2,5,20,all} pings in time (pong delay 0, timeout/2 or timeout-1ms) and then falls silent or answers late (timeout+1ms, 3*timeout); with or without concurrent upstream traffic (the silent broker withholds its acks as well); 0/3/10 broker-originated pings interleaved, in a third of the cases also a burst of 12-31 broker pings at once while the client's pong writes take 5 ms each. Oracle on the virtual clock: ping cadence (next ping no later than one interval + 1ms after the previous one was sent), disconnect notification no later than interval + timeout + 1 ms after the broker's last timely message, AND no later than timeout + 1 ms after the first ping that is not answered in time reached the broker, and a new dial; no disconnect and no redial over 40 intervals while every pong is in time; every broker ping answered by a pong with the same request id; announced interval/timeout = configured values truncated to whole seconds. non-trivial = at least 2 client pings observed; distinct = scenario tuple",
 		Assumptions: []string{"scheduling slack is 1 ms of virtual time (inside a bubble time only advances when every goroutine is blocked)",
 			"'silence' starts with the first ping that does not get its pong within the timeout; the bound is measured from that ping's arrival at the broker"}}
 	vrun.Loop(t, meta, 0, func(c *vrun.Case) vrun.Result {
@@ -98,9 +104,33 @@ func run(s scenario) vrun.Result {
 	var pings []pingRec
 	var firstBad *pingRec
 	perLink := map[int]int{}
+	// silentFrom: the (virtual) instant from which the broker says nothing more on link 1 - right after its last timely
+	// pong, or the start of the connection when it never answers. From then on it also withholds acks ("falls silent").
+	var silentFrom time.Time
+	silent := false
+	goSilent := func() { // mu held
+		if !silent {
+			silent = true
+			silentFrom = time.Now()
+		}
+	}
+	if s.AnswerK == 0 {
+		goSilent()
+	}
 	w.B.OnMsg = func(lc *broker.LinkCtx, m message.Message, unrel bool) bool {
 		p, ok := m.(*message.Ping)
 		if !ok {
+			if lc.L.ID == 1 && s.Late == "silent" {
+				mu.Lock()
+				sl := silent
+				mu.Unlock()
+				if sl {
+					if ch, isChunk := m.(*message.UpstreamChunk); isChunk {
+						lc.RecordChunk(ch, unrel)
+						return true // a silent peer does not acknowledge either
+					}
+				}
+			}
 			return false
 		}
 		mu.Lock()
@@ -123,15 +153,35 @@ func run(s scenario) vrun.Result {
 			}
 			d = lateDelay
 		}
+		last := good && lc.L.ID == 1 && s.AnswerK >= 0 && n == s.AnswerK // the last pong before the silence
 		if d == 0 {
 			lc.Send(&message.Pong{RequestID: p.RequestID})
+			if last {
+				mu.Lock()
+				goSilent()
+				mu.Unlock()
+			}
 		} else {
 			go func() {
 				time.Sleep(d)
 				lc.Send(&message.Pong{RequestID: p.RequestID})
+				if last {
+					mu.Lock()
+					goSilent()
+					mu.Unlock()
+				}
 			}()
 		}
 		return true
+	}
+	if s.PingBurst > 0 {
+		// the client's pong writes take 5 ms (virtual) each: a burst of broker pings piles up behind the pong writer
+		w.Net.WriteDelay = func(class string) (pre, post time.Duration) {
+			if class == "Pong" {
+				return 5 * time.Millisecond, 0
+			}
+			return 0, 0
+		}
 	}
 	w.Start()
 	var disc, recon atomic.Int64
@@ -194,6 +244,26 @@ func run(s scenario) vrun.Result {
 			}
 		}()
 	}
+	if s.PingBurst > 0 {
+		lc := w.B.CurrentLink()
+		twg.Add(1)
+		go func() {
+			defer twg.Done()
+			select {
+			case <-ctx.Done():
+				return
+			case <-time.After(iv / 5):
+			}
+			for i := 0; i < s.PingBurst; i++ {
+				id := uint32(5001 + 2*i)
+				if lc.Send(&message.Ping{RequestID: message.RequestID(id)}) {
+					mu.Lock()
+					bpIDs = append(bpIDs, id)
+					mu.Unlock()
+				}
+			}
+		}()
+	}
 	horizon := 40 * iv
 	if s.AnswerK >= 0 {
 		horizon = time.Duration(s.AnswerK+3)*(iv+to) + 3*to + time.Second
@@ -204,6 +274,7 @@ func run(s scenario) vrun.Result {
 	ps := append([]pingRec(nil), pings...)
 	fb := firstBad
 	dAt := discAt
+	sFrom, isSilent := silentFrom, silent
 	mu.Unlock()
 	finish := func(r vrun.Result) vrun.Result {
 		cancel()
@@ -247,6 +318,19 @@ func run(s scenario) vrun.Result {
 	if len(l1) > 0 {
 		if first := l1[0].at.Sub(start); first > iv+slack {
 			return finish(vrun.Violation("the first ping was sent later than one interval after connecting", "first-ping-late", map[string]any{"after": first.String()}))
+		}
+	}
+	if s.AnswerK >= 0 && isSilent {
+		// the statement's bound, measured from the moment the peer fell silent: interval + timeout (+ slack), whatever
+		// the client did with its pings in between (for late pongs the silence starts with the last timely one as well)
+		bound := sFrom.Add(iv + to + slack)
+		if disc.Load() == 0 || dAt.After(bound) {
+			got := "never"
+			if disc.Load() > 0 {
+				got = dAt.Sub(sFrom).String()
+			}
+			return finish(vrun.Violation("dead peer not declared lost within ping interval + ping timeout (+1 ms) after it fell silent", "dead-peer-detection-late:since-silence",
+				map[string]any{"declared_after_silence": got, "timeout": to.String(), "interval": iv.String(), "timely_pongs_before": s.AnswerK, "client_pings_on_link_1": len(l1)}))
 		}
 	}
 	if fb == nil {
@@ -300,7 +384,7 @@ func run(s scenario) vrun.Result {
 		}
 		return finish(vrun.Violation("a broker ping was not answered by exactly one pong with the same request id", "broker-ping-unanswered", map[string]any{"id": id, "pongs": pongs[id]}))
 	}
-	r := vrun.Hold(fmt.Sprintf("%d|%d|%d|%s|%s|%v|%d", s.IntervalMs, s.TimeoutMs, s.AnswerK, s.OkDelay, s.Late, s.Traffic, s.BrokerPings), len(l1) >= 2)
+	r := vrun.Hold(fmt.Sprintf("%d|%d|%d|%s|%s|%v|%d|%d", s.IntervalMs, s.TimeoutMs, s.AnswerK, s.OkDelay, s.Late, s.Traffic, s.BrokerPings, s.PingBurst), len(l1) >= 2)
 	r.Stat("client_pings_observed", int64(len(ps)))
 	r.Stat("broker_pings_answered", int64(answered))
 	if fb != nil {
